@@ -213,7 +213,9 @@ def check_precision_matrix(ctx, rep):
         except Unsupported as u:
             facts = {'why': str(u)}
     dim_def = [st for st in call.body if isinstance(st, ast.Assign) and isinstance(st.targets[0], ast.Name) and st.targets[0].id == 'dim']
-    dim_ok = bool(dim_def) and ast.unparse(dim_def[0].value).replace(' ', '') in ('self.field.shape[-1]-1.0', 'self.field.shape[-1]-1')
+    from fractions import Fraction
+    from sa.util import linear_in, local_assignments
+    dim_ok = bool(dim_def) and linear_in(dim_def[0].value, {'self.field.shape[-1]': 'N', 'self.field.tensor.shape[-1]': 'N'}, local_assignments(call)) == {'N': Fraction(1), 1: Fraction(-1)}
     rep.check('C20.Q', 'GMRF._call::gaussian-log-density-terms', ok and dim_ok, where(cls.module, call), facts,
               "log density must be (N−1)/2·log τ − τ/2·Σ(Δx)² − (N−1)/2·log 2π")
 
@@ -253,15 +255,28 @@ def check_clones(ctx, rep):
     gi_cls = ctx.classes.get(f"{GI}.GMRFGammaIntegrated")
     gi = gi_cls.resolve('_call')[1]
 
+    def stores(st):
+        return {t.id for x in ast.walk(st) if isinstance(x, (ast.Assign, ast.AugAssign)) for t in (x.targets if isinstance(x, ast.Assign) else [x.target]) if isinstance(t, ast.Name)}
+
     def prologue(fn):
-        out = []
+        # only what the weighted squared differences are computed from: the backward closure of `diff_square` over the local names (a local introduced for the
+        # normalising constant, a comment, a print do not take part in the comparison)
+        body = []
         for st in fn.body:
             if isinstance(st, ast.Return):
                 break
-            if isinstance(st, ast.Assign) and isinstance(st.targets[0], ast.Name) and st.targets[0].id in ('dim', 'precision'):
-                continue
-            out.append(ast.dump(_Norm().visit(copy.deepcopy(st))))
-        return out
+            body.append(st)
+        rel = {'diff_square'}
+        changed = True
+        while changed:
+            changed = False
+            for st in body:
+                if stores(st) & rel:
+                    used = {n.id for n in ast.walk(st) if isinstance(n, ast.Name) and isinstance(n.ctx, ast.Load)}
+                    if not used <= rel:
+                        rel |= used
+                        changed = True
+        return [ast.dump(_Norm().visit(copy.deepcopy(st))) for st in body if stores(st) & rel]
     a, b = prologue(g), prologue(gi)
     rep.check('C20.S', 'GMRF._call≡GMRFGammaIntegrated._call::difference-weighting', a == b and len(a) >= 2, where(gi_cls.module, gi), {'statements': len(a)},
               "the squared-difference / weighting prologue of the precision-integrated prior differs from the GMRF it integrates: the two no longer describe the same field")
@@ -369,7 +384,11 @@ def check_clones(ctx, rep):
         except Unsupported as u:
             facts = {'why': str(u)}
     cnt = [st for st in fn.body if isinstance(st, ast.Assign) and isinstance(st.targets[0], ast.Name) and st.targets[0].id == 'internal_count']
-    cnt_ok = bool(cnt) and ast.unparse(cnt[0].value).replace(' ', '') == 'int((node_heights.shape[-1]+1)/2)-1'
+    # N = number of coalescent events = (n − 1) / 2 for the n = 2T − 1 node heights (n is odd, so floors are exact): any spelling that evaluates to it
+    from fractions import Fraction
+    from sa.util import linear_in, local_assignments
+    nh = fn.args.args[1].arg if len(fn.args.args) > 1 else 'node_heights'
+    cnt_ok = bool(cnt) and linear_in(cnt[0].value, {f'{nh}.shape[-1]': 'n'}, {k: v for k, v in local_assignments(fn).items() if k != 'internal_count'}, odd={'n'}) == {'n': Fraction(1, 2), 1: Fraction(-1, 2)}
     rep.check('C20.S', 'ConstantCoalescentIntegrated.log_prob::closed-form', ok and cnt_ok, where(m, fn), facts,
               "size-integrated constant coalescent must be α·log β − lgamma(α) + lgamma(α+N) − (α+N)·log(β + ΣC·t) with N = number of coalescent events")
 
